@@ -7,7 +7,7 @@
     [run] / [final] / [consumed] run a whole history. *)
 From Coq Require Import List Bool Arith ZArith.
 Import ListNotations.
-Require Import Nib.C11.Model Nib.C11.Spec Nib.C11.Proofs.
+Require Import Nib.C11.Model Nib.C11.Spec Nib.C11.Proofs Nib.C11.ProofsPreimage Nib.C11.Examples.
 
 (** A vote is accepted IF AND ONLY IF its signer is the validator's own account or the account
     the validator currently delegates to, the validator is bonded, a prevote of that validator is
@@ -195,3 +195,87 @@ Print Assumptions C11_model_traces_satisfy_P.
 Theorem C11_checker_sound : forall n H pre t, Pb n H pre t = true -> P n H pre t.
 Proof. exact Pb_sound. Qed.
 Print Assumptions C11_checker_sound.
+
+(* ------------------------------------------------------------------ the hash is over the EXACT revealed bytes *)
+
+(** Salt and rate-string ids stand for exact byte strings (a trailing blank, a tab, the case of a
+    letter, a Unicode normalisation form make a different id).  [step_pi pi H] is the handler of a
+    tree that hashes string [pi_salt pi x] in the place of the revealed salt [x] and
+    [pi_rates pi r] in the place of the rate string [r] (Model.v); the pinned tree applies nothing
+    (Gen/C11Oblig.v C11_hash_preimage_exact, C11_current_tree_model_is_exact), and with the identity
+    the parameterised model is the model of every theorem above. *)
+Theorem C11_exact_preimage_is_the_model :
+  pi_is_exact pi_exact /\ forall H, step_pi pi_exact H = step H /\ run_pi pi_exact H = run H.
+Proof. split; [exact pi_exact_is_exact|]. intro H. split; [apply step_pi_exact|apply run_pi_exact]. Qed.
+Print Assumptions C11_exact_preimage_is_the_model.
+
+(** The property's hash clause — "an accepted vote's stored commitment equals the hash of the
+    revealed salt, the exact rate string and the validator" — holds for ALL states, heights and
+    votes IF AND ONLY IF nothing is applied to salt and rate string before hashing. *)
+Theorem C11_reveal_exact_iff_preimage_exact :
+  forall pi H, H_injective_fn H ->
+  ((forall n s h f v salt rates tuples parses wl,
+      accepted (fst (step_pi pi H n s h (Vote f v salt rates tuples parses wl))) = true ->
+      exists p, prevotes s v = Some p /\ p_hash p = H salt rates v)
+   <-> pi_is_exact pi).
+Proof. exact reveal_exact_iff_preimage_exact. Qed.
+Print Assumptions C11_reveal_exact_iff_preimage_exact.
+
+(** Conversely "the byte-exact reveal of a stored commitment — in its window, by an authorised
+    signer of a bonded validator, parsing to whitelisted pairs — is accepted" holds for all states
+    and votes iff the preimage is exact. *)
+Theorem C11_exact_reveal_accepted_iff_preimage_exact :
+  forall pi H, H_injective_fn H ->
+  ((forall n s h f v salt rates tuples p,
+      feeder_ok s f v = true -> status s v = Bonded -> prevotes s v = Some p ->
+      period_ok (vp s) h (p_submit p) = true -> p_hash p = H salt rates v ->
+      accepted (fst (step_pi pi H n s h (Vote f v salt rates tuples true true))) = true)
+   <-> pi_is_exact pi).
+Proof. exact exact_reveal_accepted_iff_preimage_exact. Qed.
+Print Assumptions C11_exact_reveal_accepted_iff_preimage_exact.
+
+(** Any normalising variant is refuted by a two-message history from the initial state: a
+    commitment to the normalised strings, then a reveal of a salt / rate string [x] / [r] that the
+    normalisation changes.  The vote is accepted, consumes Prevote message 0 although that message
+    did not commit to H(x, r, validator), and the trace violates [P]. *)
+Theorem C11_normalising_preimage_refuted :
+  forall pi H x r t, H_injective_fn H -> (pi_salt pi x <> x \/ pi_rates pi r <> r) ->
+  let evs := commit_normal_reveal_raw pi H x r t in
+  map (fun o => accepted (fst o)) (run_pi pi H 0 all_bonded evs) = [true; true] /\
+  consumed_pi pi H 0 all_bonded evs = [(1, 0)] /\
+  H (pi_salt pi x) (pi_rates pi r) 0 <> H x r 0 /\
+  ~ P 1 H (view_of all_bonded) (otrace_of evs (run_pi pi H 0 all_bonded evs)).
+Proof. exact inexact_preimage_refuted. Qed.
+Print Assumptions C11_normalising_preimage_refuted.
+
+(** … and the byte-exact reveal of a commitment over such [x], [r] is refused by that variant,
+    whereas the exact model accepts it and refuses every non-identical reveal. *)
+Theorem C11_normalising_preimage_refuses_exact_reveal :
+  forall pi H x r t, H_injective_fn H -> (pi_salt pi x <> x \/ pi_rates pi r <> r) ->
+  map (fun o => accepted (fst o)) (run_pi pi H 0 all_bonded (commit_raw_reveal_raw H x r t)) = [true; false].
+Proof. exact inexact_preimage_refuses_exact_reveal. Qed.
+Print Assumptions C11_normalising_preimage_refuses_exact_reveal.
+
+Theorem C11_exact_preimage_histories :
+  forall H x r t x' r', H_injective_fn H -> (x' <> x \/ r' <> r) ->
+  map (fun o => accepted (fst o)) (run H 0 all_bonded (commit_raw_reveal_raw H x r t)) = [true; true] /\
+  map (fun o => accepted (fst o))
+      (run H 0 all_bonded [ (1%Z, Prevote 0 0 (H x' r' 0) true); (2%Z, Vote 0 0 x r t true true) ]) = [true; false].
+Proof. exact exact_preimage_histories. Qed.
+Print Assumptions C11_exact_preimage_histories.
+
+(** The seeded variant (strings.TrimSpace on salt and rate string inside GetAggregateVoteHash),
+    concretely: salt 1 = "ab", salt 2 = "ab "; the reveal of "ab " against a commitment to "ab" is
+    accepted, the exact reveal of a commitment to "ab " is refused, and the checker [Pb] that
+    check.py runs on implementation traces flags the first trace. *)
+Theorem C11_trim_preimage_refuted :
+  exists evs evs',
+    map (fun o => accepted (fst o)) (run_pi pi_trim Hx 0 all_bonded evs) = [true; true] /\
+    map (fun o => accepted (fst o)) (run Hx 0 all_bonded evs) = [true; false] /\
+    Pb 1 Hx (view_of all_bonded) (otrace_of evs (run_pi pi_trim Hx 0 all_bonded evs)) = false /\
+    map (fun o => accepted (fst o)) (run_pi pi_trim Hx 0 all_bonded evs') = [true; false] /\
+    map (fun o => accepted (fst o)) (run Hx 0 all_bonded evs') = [true; true].
+Proof.
+  exists commit_ab_reveal_ab_blank, commit_ab_blank_reveal_ab_blank. repeat split; vm_compute; reflexivity.
+Qed.
+Print Assumptions C11_trim_preimage_refuted.
